@@ -565,6 +565,15 @@ impl Writer {
                     return Err(e.into());
                 }
 
+                // the entry left in the source file is dead from now on. The statistics of the
+                // source file are dropped when the file is removed, but a merge that is given up
+                // before that must not leave them claiming keys that have moved
+                self.ctx
+                    .stats
+                    .entry(keydir_entry.fileid)
+                    .or_default()
+                    .overwrite(keydir_entry.len);
+
                 // update keydir so it points to the merge data file
                 keydir_entry.fileid = merge_fileid;
                 keydir_entry.len = nbytes;
